@@ -38,7 +38,7 @@ func (f Field) Value() string {
 // Op is one frame written by one raw endpoint ("c" = client side of the relay, "s" = server side).
 type Op struct {
 	Side string `json:"side"`
-	Kind string `json:"kind"` // data hdr cont pp prio rst wu set ack ping goaway
+	Kind string `json:"kind"` // data hdr cont pp prio rst wu set ack ping goaway raw | sleep | burst
 	Sid  uint32 `json:"sid,omitempty"`
 
 	// data
@@ -66,6 +66,19 @@ type Op struct {
 	DebugLen int         `json:"debuglen,omitempty"`
 	// raw: a frame of type Typ (one the Framer does not know) with Len octets of payload
 	Typ uint8 `json:"typ,omitempty"`
+
+	// sleep: the schedule pauses for Ms milliseconds (end-to-end family: the connection outlives the
+	// proxy's HTTP/1 timeouts); no frame is written and no trace step results
+	Ms int `json:"ms,omitempty"`
+	// burst: Main is written back to back by Side, without barriers, while the other side writes Cross
+	// concurrently (Trig: as soon as it sees a header block begin, otherwise at once); three barriers
+	// follow.  A "hdr"/"pp" in either list is continued automatically (the realised list names the
+	// CONTINUATION frames), so that each list keeps to RFC 7540 6.10 on its own connection.
+	Main  []Op `json:"main,omitempty"`
+	Cross []Op `json:"cross,omitempty"`
+	Trig  bool `json:"trig,omitempty"`
+	// SlowUs: both endpoints read a header block slowly during the burst (microseconds per frame)
+	SlowUs int `json:"slow_us,omitempty"`
 
 	// LateApply (set, HEADER_TABLE_SIZE): the receiving endpoint keeps encoding with its old table for
 	// its next header block, as a peer does whose HEADERS crossed the SETTINGS in flight (F15).
@@ -105,6 +118,23 @@ type Params struct {
 	MaxData  int  `json:"max_data"`  // upper bound of DATA payload sizes
 	BigHdrs  bool `json:"big_hdrs"`  // header blocks up to 40 KiB
 	FlowOnly bool `json:"flow_only"` // mostly DATA / WINDOW_UPDATE / SETTINGS
+	// Conc > 0: the concurrent family - Conc bursts in which a header block of many CONTINUATION frames
+	// races with every other writer of the same destination (gen_conc.go)
+	Conc int `json:"conc,omitempty"`
+	// E2E: the relay is reached the way a client reaches it - CONNECT to a martian.Proxy that
+	// intercepts TLS and negotiates h2 - and the connection is kept for HoldMs (rig_e2e.go)
+	E2E *E2E `json:"e2e,omitempty"`
+}
+
+// E2E configures the proxy of an end-to-end case (all durations in milliseconds, 0 = not set).
+type E2E struct {
+	IdleMs       int    `json:"idle_ms,omitempty"`
+	ReadMs       int    `json:"read_ms,omitempty"`
+	ReadHeaderMs int    `json:"read_header_ms,omitempty"`
+	WriteMs      int    `json:"write_ms,omitempty"`
+	MITMHsMs     int    `json:"mitm_handshake_ms,omitempty"`
+	HoldMs       int    `json:"hold_ms"`
+	Mode         string `json:"mode"` // "idle" (silent during the hold, then busy) | "busy" (a frame every few tens of ms)
 }
 
 // Frame is a frame as received by a raw endpoint.
@@ -264,4 +294,8 @@ type Result struct {
 	Final     bool           `json:"final"`
 	Crashed   string         `json:"crashed,omitempty"` // child process died while running this case (stderr tail)
 	Stats     map[string]int `json:"stats,omitempty"`
+	// WireBad: RFC 7540 6.10 violated in the order in which frames ARRIVED at a raw endpoint (judged
+	// by its read loop, frame by frame); Arrival: that order, per endpoint (concurrent / end-to-end cases)
+	WireBad []string            `json:"wire_bad,omitempty"`
+	Arrival map[string][]string `json:"arrival,omitempty"`
 }
